@@ -373,6 +373,8 @@ class Filterbank(ABC):
         maximum dispersion delay.
         """
         chan_delays = self.header.get_dmdelays(dm)
+        # Reference the delays to the earliest channel so that none is negative
+        chan_delays = chan_delays - min(0, int(chan_delays.min()))
         max_delay = int(chan_delays.max())
         gulp = max(2 * max_delay, gulp)
         nsamps_read = (self.header.nsamples - start) if nsamps is None else nsamps
@@ -1069,6 +1071,8 @@ class Filterbank(ABC):
         """
         subfactor = self.header.nchans // nsub
         chan_delays = self.header.get_dmdelays(dm)
+        # Reference the delays to the earliest channel so that none is negative
+        chan_delays = chan_delays - min(0, int(chan_delays.min()))
         max_delay = int(chan_delays.max())
         gulp = max(2 * max_delay, gulp)
         out_ar = np.zeros((gulp - max_delay) * nsub, dtype="float32")
@@ -1177,6 +1181,8 @@ class Filterbank(ABC):
             raise ValueError(msg)
         nbands = min(nbands, self.header.nchans)
         chan_delays = self.header.get_dmdelays(dm)
+        # Reference the delays to the earliest channel so that none is negative
+        chan_delays = chan_delays - min(0, int(chan_delays.min()))
         max_delay = int(chan_delays.max())
         gulp = max(2 * max_delay, gulp)
         fold_ar = np.zeros(nbins * nints * nbands, dtype="float32")
